@@ -580,6 +580,19 @@ def run_multitype(case, part):
     except Exception as e:
         part.violation("C09/raises/%s/find_equivalent_patterns" % type(e).__name__, "find_equivalent_patterns fails on syntactically valid patterns", {"kind": "multitype", "row": i, "p": texts[i]}, "a list", str(e)[:100])
         return
+    # the collection in every iterable form the documentation allows ("stream patterns in"): the answer is a property of the members, not of the container
+    for form, make in (("tuple", lambda: tuple(texts)), ("iterator", lambda: iter(list(texts))), ("generator", lambda: (t for t in texts)), ("dict-keys", lambda: dict.fromkeys(texts).keys())):
+        part.evaluations += 1
+        part.transitions += 1
+        try:
+            got = list(EP.find_equivalent_patterns(texts[i], make()))
+        except Exception as e:
+            part.violation("C09/raises/%s/find_equivalent_patterns(%s)" % (type(e).__name__, form), "find_equivalent_patterns fails on a documented collection form", {"kind": "multitype", "row": i, "p": texts[i], "form": form},
+                           "a list", str(e)[:100])
+            continue
+        if set(got) != found or len(got) != len(set(got)):
+            part.violation("C09/find-depends-on-collection-form/%s" % form, "find_equivalent_patterns answers differently when the same patterns arrive as another kind of iterable",
+                           {"kind": "multitype", "row": i, "p": texts[i], "form": form}, sorted(found), sorted(got))
     row = ""
     for j, tj in enumerate(texts):
         part.evaluations += 2
